@@ -7,7 +7,7 @@ CLAIMED = {
     text="Forged signature lists (valid / duplicate-key / corrupted / other-content / other-role / unknown / listed-but-missing-key) at all 8 verification sites are pushed through the real RepositoryLoader::load and through direct Root/Delegations::verify_role calls; the oracle knows by construction how many distinct authorised keys validly signed. Exhaustive for lists up to length 2/3 (load level) and 4/5 (API level), sampled beyond; held on the executions listed in the evidence, nothing is proved.",
     note="Trusted: aws-lc-rs primitives; harness reference canonicaliser; bounds n,t<=4, list length<=5.", ref="§5 C01"),
  "C02": dict(cat="exploration", tech="runtime monitor on load() outcome, trusted root version and transport fetch log; oracle = reference chain walk over generator ground truth (set of acceptable outcomes)",
-    text="Seeded random root chains (shipped 1..2, 0..4 hops, rotation kinds per hop for root and online roles, one optional broken hop of 9 kinds, top-level metadata signed by final or revoked epoch keys, non-self-verifying shipped roots) are served to the real client; an independent reference walk computes which final roots are acceptable; fetch-log rules check stop-at-first-missing. Held on the executions in the evidence.",
+    text="Seeded random root chains (shipped 1..2, 0..4 hops, rotation kinds per hop for root and online roles, one optional broken hop of 9 kinds, top-level metadata signed by final or revoked epoch keys, non-self-verifying shipped roots) are served to the real client; an independent reference walk computes which final roots are acceptable; fetch-log rules check stop-at-first-missing; under-signed hops are also padded with repeated signatures, and bad shipped roots are also served with valid newer roots behind them. Held on the executions in the evidence.",
     note="Trusted: harness forge/refcanon; outcome sets where the statement leaves freedom (broken hop may fail or stop at last good root; skipping hop may be followed or refused).", ref="§5 C02"),
  "C03": dict(cat="exploration", tech="offline history checker over recorded update-cycle histories sharing one datastore (pairwise rollback rule with key-change exemption + forward-never-refused rule)",
     text="All 81^2 two-cycle histories (both consistent-snapshot settings), lowering templates, all 81^3 three-cycle histories (thorough) and seeded 2..4-cycle histories with root publications are run against the real client over one datastore directory; the recorded (result, versions, trusted root) history is judged offline. Known finding: rollback of timestamp/snapshot accepted when the shipped root predates an online-key rotation (trusted root not persisted).",
@@ -16,7 +16,7 @@ CLAIMED = {
     text="Cycle 1 stores timestamp/snapshot at V in {3,2^31,2^63}; newer roots rotate timestamp/snapshot/both/neither keys (disjoint, add, remove, replace) over 1..3 hops; cycle 2 restarts at low versions. Rotated => must load; unrotated => must be refused; unrotated targets keys keep protecting targets.",
     note="Rotate-and-rotate-back and threshold-only changes are outside C14's quantifier.", ref="§5 C14"),
  "C04": dict(cat="exploration", tech="runtime monitor under a virtual clock (hook in Datastore::system_time); oracle by construction from forged expiry dates and the clock trajectory, incl. error class and reported role",
-    text="Every subset of {root,timestamp,snapshot,targets} expired by 2s..400d at load time, load followed by read_target/save_target before/after the earliest expiry, backward clock jumps before the last operation of several trajectories, default/Safe/Unsafe enforcement, expired intermediate roots; the real client runs with its single Utc::now() sample replaced by a thread-local virtual clock.",
+    text="Every subset of {root,timestamp,snapshot,targets} expired by 2s..400d at load time, load followed by read_target/save_target before/after the earliest expiry, backward clock jumps before the last operation of several trajectories, default/Safe/Unsafe enforcement, expired intermediate roots, a second update cycle on the same datastore before/after the earliest expiry; the real client runs with its single Utc::now() sample replaced by a thread-local virtual clock.",
     note="The boundary instant is never used; the real system clock is out of reach (hook).", ref="§5 C04"),
  "C05": dict(cat="exploration", tech="runtime monitor on load() outcome and fetch log for cross-state file combinations; oracle by construction from the served bytes (version/digest/length relations)",
     text="Timestamp of state a, snapshot of b, targets of c, delegated role of d for all 81 combinations x 4 pin configurations x both consistent-snapshot settings; same-state byte variants (re-formatted, shuffled, extra unknown signature) against pins of the original bytes; delegated role missing from the snapshot; fetch-log rule for version-prefixed names.",
@@ -31,31 +31,31 @@ CLAIMED = {
     text="All 9330 names over {vq7 . / \\ space %} up to length 5, random names up to 40 symbols, both prefix modes, with/without pre-existing destination; transfers in 1..8 chunks with a failure at every chunk position (transport error, bit flip, truncation, oversize). Rules: no change outside out/, destination never shows partial/unverified content, failed call leaves no file, success leaves exactly the verified file.",
     note="Leftover empty directories ignored; names rejected by TargetName::new counted separately.", ref="§5 C08"),
  "C09": dict(cat="fault_enumeration", tech="runtime monitor counting requests and bytes pulled per URL on an in-memory transport; bounds computed from limits / pinning document / published delegation graph; termination decided on the request counter",
-    text="Configured limits {0,size-1,size,size+1,default,huge} and parent-pinned lengths for every role incl. a delegated role larger than targets.json; endless/oversized answers in 1/64/4096-byte chunks; chains of max_root_updates-1..+50 newer roots; delegation graphs tree/diamond/deep/self/mutual/3-cycle.",
+    text="Configured limits {0,size-1,size,size+1,default,huge} and parent-pinned lengths for every role incl. a delegated role larger than targets.json; endless/oversized answers in 1/64/4096-byte chunks; chains of max_root_updates-1..+50 newer roots followed by nothing / the last root again / an older root under the next file name; delegation graphs tree/diamond/deep/self/mutual/3-cycle.",
     note="Pulled bytes may exceed the bound by one transport chunk.", ref="§5 C09"),
  "C11": dict(cat="exploration", tech="differential runtime monitor: CanonicalFormatter output vs an independent reference canonicaliser + strict canonical-bytes parser (injectivity), exhaustive small scope + seeded random, library and olpc-cjson binary",
-    text="Every key set of size <=3 over an 8-symbol alphabet (prefix pairs, escaped characters, characters below the quote, pre-composed and decomposed é) under every insertion order, random values to depth 4 over all ASCII incl. control characters with floats injected, each also with shuffled member order; the same through the olpc-cjson binary.",
+    text="Every key set of size <=3 over an 8-symbol alphabet (prefix pairs, escaped characters, characters below the quote, pre-composed and decomposed é) under every insertion order, random values to depth 4 over all ASCII incl. control characters with floats injected, each also with shuffled member order and with integers written through narrower Rust integer types (and as integer map keys); the same through the olpc-cjson binary.",
     note="NFC known by construction only for the harness' atom alphabet.", ref="§5 C11"),
  "C12": dict(cat="exploration", tech="mutation-driven runtime monitor: every single-point mutation of each role's signed portion is served to the real client; oracle 'accepted => exposed content (Serialize view and typed accessors) == signed content', benign rewrites and respellings must stay acceptable, swapped roles must be refused; plus seeded compositions of 2-3 mutations; thorough re-runs the quick case list under valgrind memcheck",
     text="The single-point mutation space (scalar change x2, member delete/insert/duplicate-first/duplicate-last, array delete/duplicate/reorder/insert, type-tag swap) of six role documents carrying unknown members at every supported level is enumerated completely; plus benign rewrites, optional members a conforming signer may write, and role swaps under a shared key. Seven known findings (unknown members inside delegations / role entries, empty custom, same-type-tag swaps) are listed with exact signatures.",
     note="Identity judged on the canonical form; the roles map of root is not extended.", ref="§5 C12"),
  "C13": dict(cat="exploration", tech="runtime monitor on serde_json::from_slice::<Signed<Root|Targets>> and Key::key_id over mutated key tables; oracle: identifier = SHA-256 of the reference canonical form; thorough re-runs the quick case list under valgrind memcheck (hostile key material reaching the native key parsers)",
-    text="Key tables of 1..4 keys of every type/encoding with 4 variants of unknown extra members, embedded in root and in delegations (two depths); ten identifier mutations at every position for tables up to 3 keys + seeded random tables; identifier stability across parse/serialise/parse and Key::from_str.",
+    text="Key tables of 1..4 keys of every type/encoding with 4 variants of unknown extra members, embedded in root and in delegations (two depths); ten identifier mutations at every position for tables up to 3 keys + seeded random tables; identifier stability across parse/serialise/parse and Key::from_str; three quarters of the cases are preceded on the same thread by a hostile document the parser refuses.",
     note="SHA-256 from aws-lc-rs.", ref="§5 C13"),
  "C16": dict(cat="exploration", tech="request-log and file-system monitor over four places (URLs, datastore, cache output, editor output) with a global injectivity map file name -> role name; role documents are handed out in request order so no encoding is assumed",
-    text="Role names over a 12-symbol alphabet of path-significant characters: exhaustive to length 3 (quick) / 4 (thorough), special names, random names to 64 symbols, 8 roles per repository; plain-entry rule on every request and every created file (tree snapshots of the parents), collision = two role names on one file.",
+    text="Role names over a 12-symbol alphabet of path-significant characters: exhaustive to length 3 (quick) / 4 (thorough), special names (incl. one repository of roles named like each other's temporary/hidden files), random names to 64 symbols, 8 roles per repository; plain-entry rule on every request and every created file (tree snapshots of the parents), collision = two role names on one file.",
     note="Names whose encoded form exceeds NAME_MAX may be refused.", ref="§5 C16"),
  "C17": dict(cat="exploration", tech="differential runtime monitor: metadata before vs after load -> RepositoryEditor::from_repo -> sign -> write, member by member on the canonical form, plus re-load through the client",
     text="Random repositories with unknown members at the top level of every role's signed portion and custom data on targets are updated (new versions/expirations, 0..3 added targets); every old target entry, the delegations object, every unknown member of targets/snapshot/timestamp, every delegated role file (signed portion + signature list) and the snapshot entries of delegated roles must survive, and the result must load.",
     note="Target names URL-inert here.", ref="§5 C17"),
  "C19": dict(cat="exploration", tech="file-system and re-load monitor around Repository::cache: tree snapshots of the parent directory, re-load of the copy via file://, version equality, byte-wise read-back, root-chain presence, corrupted-source probe",
-    text="Random repositories (delegations to depth 3, odd role names, target names of every URL class, both consistent-snapshot settings, root chains 1..3) served from memory are cached with every subset shape, with/without root chain, a quarter with one corrupted source target. Known finding: names of 5 URL classes cannot be read back from the file:// copy.",
+    text="Random repositories (delegations to depth 3, odd role names, target names of every URL class, both consistent-snapshot settings, root chains 1..3) served from memory are cached with every subset shape, with/without root chain, a quarter with one corrupted source target, a third with a target name that needs resolution. Known finding: names of 5 URL classes cannot be read back from the file:// copy.",
     note="The source is served from memory; what is judged is the copy.", ref="§5 C19"),
  "C18": dict(cat="fault_enumeration", tech="runtime monitor over the items yielded by HttpTransport::fetch and the request log of a scripted loopback HTTP server; suspected violations are re-run in isolation and reported only if they reproduce",
     text="Every fault script up to length 2/3 over {200 full, 200 stalled after k bytes, 500, 503, 403, 404, 410, 400, 416} with and without Accept-Ranges (literal and range-honouring flavours), tries 1..4, plus seeded scripts up to tries+2 for sizes 0..256 KiB. Rules: yielded bytes are a prefix of / equal to the resource, requests <= tries, Range only after an announcement, nothing after a terminal status, error kinds, completion when transient failures fit the budget.",
     note="Client timeout 700 ms; a time-out on a non-stalled response is inconclusive.", ref="§5 C18"),
  "C20": dict(cat="exploration", tech="process-level runtime monitor: the tuftool binary built from /repo is driven through seeded command sequences; after every invocation the file is compared with its previous bytes and judged by an independent parser/verifier",
-    text="Sequences of 3..12 `tuftool root` invocations (init, add-key with RSA/Ed25519/ECDSA key files, remove-key, set-threshold, set-version up to 2^32, bump-version, expire, sign with key subsets / --ignore-threshold / --cross-sign). Rules: exit!=0 => file unchanged; exit 0 => parseable root, key ids = digest of key, content change => no signature left, plain successful sign => verifies under own root keys and threshold (independent aws-lc verification + Root::verify_role).",
+    text="Sequences of 3..12 `tuftool root` invocations (init, add-key with RSA/Ed25519/ECDSA key files, remove-key, set-threshold, set-version up to 2^32, bump-version, expire, sign with key subsets / --ignore-threshold / --cross-sign). Rules: exit!=0 => file unchanged; one command in eight (and 22 templates) runs under a 512-byte file-size limit (write fault): exit != 0 => file byte-identical; exit 0 => parseable root, key ids = digest of key, content change => no signature left, plain successful sign => verifies under own root keys and threshold (independent aws-lc verification + Root::verify_role).",
     note="Cross-sign sequences exempt from the self-verification clause until the next content change.", ref="§5 C20"),
  "C15": dict(cat="fault_enumeration", tech="syscall-level fault injection with strace (-e inject=…:when=N on the one datastore thread of a child process) at EVERY datastore call of an update cycle, hit verified from the injected run's log; follow-up cycles in fresh processes as oracle",
     text="A baseline strace of one update cycle lists every openat/write/rename/unlink on the datastore directory; each is hit with SIGKILL, ENOSPC and EIO (thorough: fake short write, second kill); afterwards every genuine older repository state must be refused and the current one must load. Scenarios: re-check, timestamp-only upgrade, all-roles upgrade, consistent snapshots, delegated role, key-rotation cycle.",
